@@ -7,6 +7,7 @@
 -/
 import NiftyVerif.Lemmas.Grid
 import NiftyVerif.Lemmas.GridNest
+import NiftyVerif.Lemmas.GridWeights
 
 namespace NiftyVerif.C31
 open NiftyVerif.Grid
@@ -127,6 +128,12 @@ theorem flat_parent_commutes_serial (g : FlatLevel) (ho : g.o = FlatOrd.serial) 
   have := flat_parent_commutes g idx (by rw [ho]; exact Grid.flat_roundtrip_serial h)
   rw [ho] at this
   exact this
+
+/-- the serial weights AS WRITTEN IN THE SOURCE (`Gen.weightsSerialGen`, regenerated from `_weights_serial` on every run
+    by translators/t_gridweights.py) are the model's row-major strides, for every non-empty shape: a change of that
+    expression breaks this proof -/
+theorem weights_serial_translated (n : Nat) (t : List Nat) :
+    NiftyVerif.Gen.weightsSerialGen (n :: t) = weightsSerial (n :: t) := weightsSerialGen_eq n t
 
 /-! ### flattened grids, nest (level-interleaved) ordering -/
 
